@@ -204,14 +204,23 @@ func (s *Server[StateT]) handleOpenFile(ctx *Context[StateT]) error {
 
 type readFileResponseWriter struct {
 	dataLength int32
-	upstream   io.Writer
+	upstream   *proto.Writer
+	err        error // result of sending the length header
 }
 
-func (w *readFileResponseWriter) WriteHeader(length int32) { w.dataLength = length }
+// WriteHeader announces the number of bytes that follow.
+func (w *readFileResponseWriter) WriteHeader(length int32) {
+	w.dataLength = length
+	w.err = w.upstream.SendReadFileResultLen(length)
+}
 
 func (w *readFileResponseWriter) Write(p []byte) (n int, err error) {
-	if w.dataLength <= 0 {
+	if w.dataLength < 0 {
 		return 0, fmt.Errorf("WriteHeader wasn't called")
+	}
+
+	if w.err != nil {
+		return 0, w.err
 	}
 
 	return w.upstream.Write(p)
@@ -223,10 +232,16 @@ func (s *Server[StateT]) handleReadFile(ctx *Context[StateT]) error {
 		return fmt.Errorf("read read file params failed: %w", err)
 	}
 
-	return s.Handler.HandleReadFile(ctx, toRead, off, &readFileResponseWriter{
+	w := &readFileResponseWriter{
 		dataLength: -1,
-		upstream:   ctx.wr.Writer,
-	})
+		upstream:   &ctx.wr,
+	}
+
+	if err := s.Handler.HandleReadFile(ctx, toRead, off, w); err != nil {
+		return err
+	}
+
+	return w.err
 }
 
 func (s *Server[StateT]) handleReadFileCritical(ctx *Context[StateT]) error {
